@@ -380,6 +380,21 @@ func (ck *Checker) disciplineObligations() []*Obligation {
 			out = append(out, effectsObl("discipline/pipeline-shared/"+c, []string{"C12"}, ok, "lex.go/parse.go",
 				"the location class "+c+" is accessed by the lexer goroutine and by the parser goroutine with at least one write: every access must hold the owning object's mutex", bad))
 		}
+		// lock balance: a function that takes a mutex releases it on every path to a return
+		// (a deferred Unlock in the block of the Lock, or an Unlock call on every path)
+		{
+			var lbad []string
+			for _, f := range p.All {
+				if f.Blocks == nil {
+					continue
+				}
+				for _, s := range lockLeaks(f) {
+					lbad = append(lbad, p.FuncName(f)+" "+s)
+				}
+			}
+			out = append(out, effectsObl("discipline/lock-released-on-every-path", []string{"C11", "C12", "C06"}, len(lbad) == 0, "linecalc.go",
+				"every function that locks a mutex unlocks it before it returns, on every path (deferred, or an explicit Unlock between the Lock and each return): a mutex left held blocks the lexer's next line-table update and the parser's next position lookup for ever", lbad))
+		}
 		// lexer-private and parser-private state: lexer fields are touched only by the lexer role (+ its constructor)
 		var bad []string
 		for f := range parser {
@@ -1211,4 +1226,76 @@ func globalUseIsLoadOnly(ins ssa.Instruction, g *ssa.Global) bool {
 		return false
 	}
 	return false
+}
+
+// lockLeaks returns the returns of f that can be reached from a Lock call without passing an Unlock
+// (functions whose Unlock is deferred after the Lock in the same block, or in a block the Lock's
+// block dominates and which itself dominates every return, are balanced by construction).
+func lockLeaks(f *ssa.Function) []string {
+	isCall := func(ins ssa.Instruction, names ...string) (bool, bool) {
+		var cc *ssa.CallCommon
+		deferred := false
+		switch c := ins.(type) {
+		case *ssa.Call:
+			cc = c.Common()
+		case *ssa.Defer:
+			cc, deferred = c.Common(), true
+		}
+		if cc == nil {
+			return false, false
+		}
+		sc := cc.StaticCallee()
+		if sc == nil {
+			return false, false
+		}
+		for _, n := range names {
+			if sc.String() == n {
+				return true, deferred
+			}
+		}
+		return false, false
+	}
+	locks := []string{"(*sync.Mutex).Lock", "(*sync.RWMutex).Lock", "(*sync.RWMutex).RLock"}
+	unlocks := []string{"(*sync.Mutex).Unlock", "(*sync.RWMutex).Unlock", "(*sync.RWMutex).RUnlock"}
+	var out []string
+	for _, b := range f.Blocks {
+		for i, ins := range b.Instrs {
+			if is, d := isCall(ins, locks...); !is || d {
+				continue
+			}
+			// walk forward from the instruction after the Lock
+			type pt struct {
+				b *ssa.BasicBlock
+				i int
+			}
+			seen := map[*ssa.BasicBlock]bool{}
+			work := []pt{{b, i + 1}}
+			for len(work) > 0 {
+				w := work[len(work)-1]
+				work = work[:len(work)-1]
+				released := false
+				for j := w.i; j < len(w.b.Instrs) && !released; j++ {
+					x := w.b.Instrs[j]
+					if is, _ := isCall(x, unlocks...); is {
+						released = true // called or deferred from here on
+						break
+					}
+					if _, ok := x.(*ssa.Return); ok {
+						out = append(out, fmt.Sprintf("returns at %s with the mutex locked at %s still held", f.Prog.Fset.Position(x.Pos()), f.Prog.Fset.Position(ins.Pos())))
+					}
+				}
+				if released {
+					continue
+				}
+				for _, s := range w.b.Succs {
+					if !seen[s] {
+						seen[s] = true
+						work = append(work, pt{s, 0})
+					}
+				}
+			}
+		}
+	}
+	sort.Strings(out)
+	return out
 }
